@@ -68,7 +68,11 @@ pub fn random_case(rng: &mut Rng) -> Case {
             }
             if with_triggers && rng.coin() {
                 use IpSpec::{In, NotIn};
-                match rng.below(6) {
+                match rng.below(8) {
+                    // a time-of-day / weekday window that the request's reception time satisfies (Wednesday 13:00 UTC):
+                    // such rules share one condition group of the date-time layer
+                    6 => r.time = Some(vec![(Some("12:00:00".into()), None)]),
+                    7 => r.weekdays = Some(vec!["Wed".into(), "Thu".into()]),
                     0 => r.ips = Some(vec![In("10.0.0.0/8".into()), In("10.1.0.0/16".into())]),
                     1 => r.ips = Some(vec![In("10.1.0.0/16".into()), In("10.1.2.3/32".into()), In("10.0.0.0/8".into())]),
                     2 => r.ips = Some(vec![In("10.0.0.0/8".into()), NotIn("192.168.0.0/16".into())]),
@@ -167,13 +171,28 @@ pub fn check(case: &Case) -> Result<Stats, String> {
     rich.ip = Some("10.1.2.3".to_string());
     rich.method = Some("GET".to_string());
     rich.headers = vec![("X-A".to_string(), "Foo".to_string())];
+    rich.created_at = Some("2024-01-10T13:00:00Z".to_string());
     let request = rich.build(&config);
-    let n_routers = if k <= 6 { 12 } else { 6 };
+    let n_routers = if k <= 6 { 14 } else { 7 };
     for variant in 0..n_routers {
         let mut order: Vec<usize> = (0..k).collect();
         rng.shuffle(&mut order);
         let mut router = Router::<Rule>::from_config(cfg.build());
-        match variant % 6 {
+        match variant % 7 {
+            6 => {
+                // everything inserted, a change-set that concerns none of the rules, then half of the rules removed one
+                // by one and inserted again
+                for i in &order {
+                    router.insert(case.rules[*i].to_rule());
+                }
+                router.apply_change_set(vec![], vec![], ["no-such-rule".to_string()].into_iter().collect());
+                for i in order.iter().step_by(2) {
+                    router.remove(&case.rules[*i].id);
+                }
+                for i in order.iter().step_by(2) {
+                    router.insert(case.rules[*i].to_rule());
+                }
+            }
             4 => {
                 // an earlier version of some rules (several methods, other effects) is live first, then replaced the
                 // way a single-rule update does it: remove(id), insert(new version)
